@@ -33,7 +33,7 @@ def gen_cases(tier, seed):
             modes = [x for x in ('numeric', 'alphanumeric', 'byte', 'kanji') if oracle.mode_available(v, x)]
             mode = rng.choice(modes)
             n = gen.max_chars(v, lv, mode) or 1
-            cnt = n if i == 0 else rng.randint(1, n)
+            cnt = n if i == 0 else (rng.choice([1, 1, 2]) if (isinstance(v, str) and i == 1) else rng.randint(1, n))
             content = gen.content_for_bits(mode, cnt)
             kw = {'version': v, 'boost_error': False}
             if lv:
